@@ -81,6 +81,6 @@ def faithful (method : Str) (a : AppOut) (code : Nat) (reason : Str) (wireHdrs :
     if n = str "connection" then true
     else if isDefaultName n && (vals n a.headers).isEmpty then true
     else vals n wireHdrs = vals n a.headers)) &&
-  (body = if isHead method || code = 304 then [] else a.body)
+  (body = if isHead method || noBodyStatus code then [] else a.body)
 
 end TornadoModel.C47.Spec
